@@ -148,7 +148,12 @@ pub fn run_case(rep: &mut Report, fmt: Fmt, seed: u64, index: u64, verbose: bool
         gen.unknown_props = false;
         gen.unknown_classes = false;
     }
-    let mut spec = gen.tree(&mut rng);
+    let mut spec = if index % 50 == 49 {
+        rep.count("cases.scale");
+        gen.scale_tree(&mut rng)
+    } else {
+        gen.tree(&mut rng)
+    };
     if fmt == Fmt::Xml && !rng.chance(1, 8) {
         // rbx_xml panics on Content::Object (known finding); keep observing it in 1/8 of the
         // cases and let the others exercise the rest of the writer
